@@ -244,14 +244,16 @@ def cases(tier):
     hs = ['trace', 'logdet0', 'logdet1', 'logdet2']
     models = [('gd', dict(fclass='ssc', steps=['grad'])),
               ('negative-optimum', dict(fclass='sc', steps=['grad'], stationary=False, negative=True))]
+    models += [('lmi', dict(fclass='ssc', steps=['grad'], lmis=['sym2'], lmi_metric=False))]
     if tier == 'thorough':
-        models += [('lmi', dict(fclass='ssc', steps=['grad'], lmis=['sym2'], lmi_metric=False)),
-                   ('qg', dict(fclass='qg', steps=['grad'], stationary=False))]
+        models += [('qg', dict(fclass='qg', steps=['grad'], stationary=False))]
     for mname, spec in models:
         for h in hs:
             for be in ('cvxpy', 'mosek'):
                 for mode in ('dual', 'primal'):
                     if mname == 'negative-optimum' and (h not in ('trace', 'logdet1') or mode == 'primal') and tier == 'quick':
+                        continue
+                    if mname == 'lmi' and (h not in ('trace', 'logdet1') or mode == 'dual') and tier == 'quick':
                         continue
                     cs.append(dict(id="%s-%s-%s-%s" % (mname, h, be, mode), spec=spec, heuristic=h, backend=be, mode=mode,
                                    input_zero_tests='generic', output_branches='first'))
